@@ -45,7 +45,7 @@ package fscache
 
 // isRemoved decides Removed: the remove journal is looked up, the recursive-remove journal is
 // scanned for the path itself or a directory above it
-//@ func (*Cache).isRemoved [C06 C07]
+//@ func (*Cache).isRemoved [C06 C07 C03]
 //@   requires CInv(c)
 //@   modifies $none
 //@   ensures result <==> Removed(c, p)
